@@ -1,6 +1,6 @@
 (* Lemmas about Model.JsepMid: list helpers, find_upd / satisfy, the invariant
    "set mids of the transceivers are pairwise distinct" over all histories. *)
-From Coq Require Import List ZArith String Ascii Bool Lia.
+From Coq Require Import List ZArith String Ascii Bool Lia ZifyBool.
 Import ListNotations.
 From Verif Require Import Common.Base Common.JsepNumeral Model.JsepMid Model.JsepMidSpec.
 Open Scope string_scope.
@@ -38,6 +38,14 @@ Lemma set_neg_mid t : t_mid (set_neg t) = t_mid t. Proof. reflexivity. Qed.
 Lemma set_sent_mid t : t_mid (set_sent t) = t_mid t. Proof. reflexivity. Qed.
 Lemma stop_tr_mid t : t_mid (stop_tr t) = t_mid t. Proof. reflexivity. Qed.
 Lemma with_dir_mid t d : t_mid (with_dir t d) = t_mid t. Proof. reflexivity. Qed.
+Lemma with_cur_mid t c : t_mid (with_cur t c) = t_mid t. Proof. reflexivity. Qed.
+Lemma with_rcur_mid t c : t_mid (with_rcur t c) = t_mid t. Proof. reflexivity. Qed.
+Lemma with_sender_mid t b : t_mid (with_sender t b) = t_mid t. Proof. reflexivity. Qed.
+Lemma attach_track_mid t : t_mid (attach_track t) = t_mid t. Proof. reflexivity. Qed.
+Lemma detach_track_mid t : t_mid (detach_track t) = t_mid t.
+Proof. unfold detach_track. destruct (t_dir t); reflexivity. Qed.
+Lemma on_answered_mid w od t : t_mid (on_answered w od t) = t_mid t.
+Proof. destruct od; reflexivity. Qed.
 Lemma adjust_dir_mid d t : t_mid (adjust_dir d t) = t_mid t.
 Proof. unfold adjust_dir. destruct d, (t_dir t); reflexivity. Qed.
 Lemma on_found_mid d t : t_mid (on_found d t) = t_mid t.
@@ -288,16 +296,160 @@ Qed.
 Lemma create_answer_mids s : map t_mid (trs (fst (create_answer s))) = map t_mid (trs s).
 Proof.
   unfold create_answer. destruct (remote_desc s) as [d|]; [|reflexivity].
-  destruct (sig s); try reflexivity.
   pose proof (gen_matched_mids s d false) as H.
-  destruct (gen_matched s d false) as [l [[[secs add] g]|e|]]; cbn [fst] in *; try exact H.
-  destruct (populate _ g secs) as [p|e|]; exact H.
+  destruct (sig s); try reflexivity;
+    (destruct (gen_matched s d false) as [l [[[secs add] g]|e|]]; cbn [fst] in *; try exact H;
+     destruct (populate _ g secs) as [p|e|]; exact H).
+Qed.
+
+(* setRTPTransceiverCurrentDirection touches currentDirection only *)
+Lemma cur_dirs_loop_mids w secs : forall l,
+  map t_mid (strip (cur_dirs_loop w secs l)) = map t_mid (strip l).
+Proof.
+  induction secs as [|[[k m] od] rest IH]; intro l; [reflexivity|].
+  cbn [cur_dirs_loop]. destruct (String.eqb m ""); [reflexivity|].
+  assert (Hf : map t_mid (strip match find_upd (by_mid m) (on_answered w od) l with
+                                | Some (_, l') => cur_dirs_loop w rest l'
+                                | None => l
+                                end) = map t_mid (strip l)).
+  { destruct (find_upd (by_mid m) (on_answered w od) l) as [[t l']|] eqn:F; [|reflexivity].
+    rewrite IH. apply find_upd_some in F. destruct F as (l1 & l2 & -> & -> & _).
+    rewrite !strip_app, !map_app. cbn [strip map fst]. rewrite on_answered_mid. reflexivity. }
+  destruct k; try exact Hf. apply IH.
+Qed.
+
+Lemma set_cur_dirs_mids w secs l : map t_mid (set_cur_dirs w secs l) = map t_mid l.
+Proof. unfold set_cur_dirs. rewrite cur_dirs_loop_mids, strip_fresh. reflexivity. Qed.
+
+(* AddTrack: reuse keeps every mid *)
+Lemma reuse_for_track_mids k l l' : reuse_for_track k l = Some l' -> map t_mid l' = map t_mid l.
+Proof.
+  revert l'. induction l as [|t rest IH]; intros l' H; [discriminate|]. cbn [reuse_for_track] in H.
+  destruct (send_allowed k t).
+  - injection H as <-. reflexivity.
+  - destruct (reuse_for_track k rest) as [r|]; [|discriminate]. injection H as <-.
+    cbn [map]. rewrite (IH _ eq_refl). reflexivity.
 Qed.
 
 Lemma finish_senders_mids s : map t_mid (trs (fst (finish_senders s))) = map t_mid (trs s).
 Proof.
   unfold finish_senders. pose proof (start_senders_mids (has_codecs s) (trs s)) as H.
   destruct (start_senders (has_codecs s) (trs s)) as [l e]. exact H.
+Qed.
+
+(* ---------- CreateOffer's numbering: two passes ---------- *)
+Lemma bump_ge g m : (g <= bump g m)%Z.
+Proof. unfold bump. destruct (atoi m) as [n|]; [|lia]. destruct (Z.gtb n g) eqn:E; [|lia]. apply Z.gtb_lt in E. lia. Qed.
+Lemma bump_covers g m n : atoi m = Some n -> (n <= bump g m)%Z.
+Proof. unfold bump. intros ->. destruct (Z.gtb n g) eqn:E; [lia|]. rewrite Z.gtb_ltb in E. apply Z.ltb_ge in E. exact E. Qed.
+
+Lemma bump_trs_ge l : forall g, (g <= bump_trs g l)%Z.
+Proof.
+  unfold bump_trs. induction l as [|t rest IH]; intro g; cbn [fold_left]; [lia|].
+  pose proof (bump_ge g (t_mid t)). specialize (IH (bump g (t_mid t))). lia.
+Qed.
+Lemma bump_trs_covers l : forall g t n, In t l -> atoi (t_mid t) = Some n -> (n <= bump_trs g l)%Z.
+Proof.
+  unfold bump_trs. induction l as [|x rest IH]; intros g t n Hin Hn; [destruct Hin|].
+  cbn [fold_left]. destruct Hin as [<-|Hin].
+  - pose proof (bump_covers g _ _ Hn). pose proof (bump_trs_ge rest (bump g (t_mid x))) as Hge.
+    unfold bump_trs in Hge. lia.
+  - eapply IH; eauto.
+Qed.
+
+Lemma bump_remote_ge g d : (g <= bump_remote g d)%Z.
+Proof.
+  unfold bump_remote. destruct d as [d|]; [|lia]. revert g.
+  induction (r_secs d) as [|r rest IH]; intro g; cbn [fold_left]; [lia|].
+  pose proof (bump_ge g (r_mid r)). specialize (IH (bump g (r_mid r))). lia.
+Qed.
+Lemma bump_remote_covers d : forall g r n,
+  In r (r_secs d) -> atoi (r_mid r) = Some n -> (n <= bump_remote g (Some d))%Z.
+Proof.
+  unfold bump_remote. induction (r_secs d) as [|x rest IH]; intros g r n Hin Hn; [destruct Hin|].
+  cbn [fold_left]. destruct Hin as [<-|Hin].
+  - pose proof (bump_covers g _ _ Hn).
+    pose proof (bump_remote_ge (bump g (r_mid x)) (Some {| r_secs := rest; r_group := None |})) as Hge.
+    unfold bump_remote in Hge. cbn [r_secs] in Hge. lia.
+  - eapply IH; eauto.
+Qed.
+
+(* what CreateOffer has seen before it numbers the first transceiver *)
+Lemma offer_start_ge_gmid s : (gmid s <= offer_start s)%Z.
+Proof.
+  unfold offer_start.
+  pose proof (bump_remote_ge (gmid s) (cur_remote s)).
+  pose proof (bump_remote_ge (bump_remote (gmid s) (cur_remote s)) (pend_remote s)).
+  pose proof (bump_trs_ge (trs s) (bump_remote (bump_remote (gmid s) (cur_remote s)) (pend_remote s))). lia.
+Qed.
+Lemma offer_start_covers_trs s t n : In t (trs s) -> atoi (t_mid t) = Some n -> (n <= offer_start s)%Z.
+Proof. unfold offer_start. intros. eapply bump_trs_covers; eauto. Qed.
+Lemma offer_start_covers_cur s d r n :
+  cur_remote s = Some d -> In r (r_secs d) -> atoi (r_mid r) = Some n -> (n <= offer_start s)%Z.
+Proof.
+  unfold offer_start. intros E Hin Hn. rewrite E.
+  pose proof (bump_remote_covers d (gmid s) r n Hin Hn).
+  pose proof (bump_remote_ge (bump_remote (gmid s) (Some d)) (pend_remote s)).
+  pose proof (bump_trs_ge (trs s) (bump_remote (bump_remote (gmid s) (Some d)) (pend_remote s))). lia.
+Qed.
+Lemma offer_start_covers_pend s d r n :
+  pend_remote s = Some d -> In r (r_secs d) -> atoi (r_mid r) = Some n -> (n <= offer_start s)%Z.
+Proof.
+  unfold offer_start. intros E Hin Hn. rewrite E.
+  pose proof (bump_remote_covers d (bump_remote (gmid s) (cur_remote s)) r n Hin Hn).
+  pose proof (bump_trs_ge (trs s) (bump_remote (bump_remote (gmid s) (cur_remote s)) (Some d))). lia.
+Qed.
+
+Lemma offer_alloc_trs s : trs (offer_alloc s) = snd (alloc_mids (offer_start s) (trs s)).
+Proof. unfold offer_alloc. destruct (alloc_mids _ (trs s)). reflexivity. Qed.
+
+(* the second pass, started above every numeral that is already in use, keeps
+   the mids pairwise distinct (pre: what has been passed over or given out) *)
+Lemma alloc_mids_nodup l : forall g pre,
+  (forall m n, In m (pre ++ set_mids l) -> atoi m = Some n -> (n <= g)%Z) ->
+  alloc_nowrap g l = true ->
+  NoDup (pre ++ set_mids l) ->
+  NoDup (pre ++ set_mids (snd (alloc_mids g l))).
+Proof.
+  induction l as [|t rest IH]; intros g pre Hb Hnw Hnd; [exact Hnd|].
+  cbn [alloc_mids alloc_nowrap] in *. destruct (mid_unset t) eqn:U.
+  - apply andb_true_iff in Hnw. destruct Hnw as [Hr Hnw]. rewrite (wrap_int_id _ Hr).
+    destruct (alloc_mids (g + 1) rest) as [g2 rest'] eqn:E. cbn [snd].
+    unfold mid_unset in U. rewrite set_mids_cons in Hb, Hnd. rewrite U in Hb, Hnd.
+    rewrite set_mids_cons. cbn [with_mid t_mid]. rewrite (eqb_empty_false _ (itoa_nonempty (g + 1))).
+    replace (pre ++ itoa (g + 1) :: set_mids rest') with ((pre ++ [itoa (g + 1)]) ++ set_mids rest')
+      by (rewrite <- app_assoc; reflexivity).
+    specialize (IH (g + 1)%Z (pre ++ [itoa (g + 1)])). rewrite E in IH. cbn [snd] in IH. apply IH.
+    + intros m n Hin Hn. rewrite <- app_assoc in Hin. apply in_app_or in Hin. destruct Hin as [Hin|[<-|Hin]].
+      * specialize (Hb m n (in_or_app _ _ _ (or_introl Hin)) Hn). lia.
+      * rewrite (atoi_itoa _ Hr) in Hn. injection Hn as <-. lia.
+      * specialize (Hb m n (in_or_app _ _ _ (or_intror Hin)) Hn). lia.
+    + exact Hnw.
+    + rewrite <- app_assoc. cbn [List.app].
+      apply NoDup_Add with (a := itoa (g + 1)) (l := pre ++ set_mids rest); [apply Add_app|].
+      split; [exact Hnd|]. intro Hc.
+      apply (itoa_fresh g (itoa (g + 1)) Hr); [|reflexivity].
+      intros n Hn. exact (Hb _ n Hc Hn).
+  - destruct (alloc_mids g rest) as [g2 rest'] eqn:E. cbn [snd].
+    unfold mid_unset in U. rewrite set_mids_cons in Hb, Hnd. rewrite U in Hb, Hnd.
+    rewrite set_mids_cons, U.
+    replace (pre ++ t_mid t :: set_mids rest') with ((pre ++ [t_mid t]) ++ set_mids rest')
+      by (rewrite <- app_assoc; reflexivity).
+    specialize (IH g (pre ++ [t_mid t])). rewrite E in IH. cbn [snd] in IH. apply IH.
+    + intros m n Hin Hn. rewrite <- app_assoc in Hin. exact (Hb m n Hin Hn).
+    + exact Hnw.
+    + rewrite <- app_assoc. exact Hnd.
+Qed.
+
+(* the characterisation of numbering_ok: from a state whose transceiver mids
+   are pairwise distinct the numbering loop produces a duplicate only if the
+   counter overflows *)
+Lemma numbering_ok_lemma s : NoDup (set_mids (trs s)) -> offer_nowrap s = true -> numbering_ok s.
+Proof.
+  intros Hnd Hnw. unfold numbering_ok. rewrite offer_alloc_trs.
+  apply (alloc_mids_nodup (trs s) (offer_start s) []); auto.
+  intros m n Hin Hn. cbn [List.app] in Hin. apply in_set_mids in Hin. destruct Hin as [_ (t & Ht & <-)].
+  eapply offer_start_covers_trs; eauto.
 Qed.
 
 (* remote descriptions held by the state *)
@@ -323,9 +475,9 @@ Lemma create_answer_remote s :
   cur_remote (fst (create_answer s)) = cur_remote s /\ pend_remote (fst (create_answer s)) = pend_remote s.
 Proof.
   unfold create_answer. destruct (remote_desc s) as [d|]; [|split; reflexivity].
-  destruct (sig s); try (split; reflexivity).
-  destruct (gen_matched s d false) as [l [[[secs add] g]|e|]]; try (split; reflexivity).
-  destruct (populate _ g secs) as [p|e|]; split; reflexivity.
+  destruct (sig s); try (split; reflexivity);
+    (destruct (gen_matched s d false) as [l [[[secs add] g]|e|]]; try (split; reflexivity);
+     destruct (populate _ g secs) as [p|e|]; split; reflexivity).
 Qed.
 
 (* the invariant of every history *)
@@ -334,86 +486,116 @@ Definition inv (s : st) : Prop := NoDup (set_mids (trs s)) /\ remotes_ok s.
 Lemma inv_init : inv init.
 Proof. split; [constructor|]. split; intros d [=]. Qed.
 
+(* a state with the same mids and well-formed remote descriptions *)
+Lemma inv_same_mids s s' :
+  NoDup (set_mids (trs s)) -> map t_mid (trs s') = map t_mid (trs s) ->
+  (forall d, cur_remote s' = Some d -> rdesc_ok d) ->
+  (forall d, pend_remote s' = Some d -> rdesc_ok d) -> inv s'.
+Proof. intros Hnd Hm Hc Hp. split; [rewrite (set_mids_ext _ _ Hm); exact Hnd|split; assumption]. Qed.
+
+Lemma set_local_inv s ty : inv s -> inv (fst (set_local s ty)).
+Proof.
+  intros [Hnd [Hc Hp]]. unfold set_local.
+  destruct (local_next (sig s) ty) as [g|]; [|split; [exact Hnd|split; assumption]].
+  assert (Hmove : inv (set_sig_remote s g (cur_remote s) (pend_remote s))).
+  { apply (inv_same_mids s); auto. }
+  destruct ty; try exact Hmove.
+  set (s1 := set_sig_remote s g (pend_remote s) None).
+  assert (H1 : inv s1).
+  { apply (inv_same_mids s); auto. intros d [=]. }
+  destruct (remote_desc s1); [|exact H1].
+  set (s2 := set_trs s1 _).
+  pose proof (finish_senders_mids s2) as Hm. pose proof (finish_senders_remote s2) as [Hr1 Hr2].
+  apply (inv_same_mids s); auto.
+  - rewrite Hm. unfold s2. cbn [trs set_trs]. apply set_cur_dirs_mids.
+  - intros d Hd. rewrite Hr1 in Hd. apply Hp. exact Hd.
+  - intros d Hd. rewrite Hr2 in Hd. discriminate.
+Qed.
+
+Lemma set_remote_inv s ty d : inv s -> rdesc_ok d -> inv (fst (set_remote s ty d)).
+Proof.
+  intros [Hnd [Hc Hp]] Hrd. unfold set_remote.
+  destruct (remote_next (sig s) ty) as [g|]; [|split; [exact Hnd|split; assumption]].
+  assert (Hloop :
+    let s1 := set_sig_remote s g (cur_remote s) (Some d) in
+    let s2 := set_engine s1 (engine_update (r_secs d) (neg_audio s1) (neg_video s1)) in
+    inv (fst (let '(l, e) := srd_loop (r_secs d) (fresh_local (trs s2)) in
+              (set_trs s2 (strip l), match e with Some c => Err c | None => Ok tt end)))).
+  { intros s1 s2.
+    pose proof (srd_loop_nodup (r_secs d) (fresh_local (trs s2)) Hrd) as Hl.
+    destruct (srd_loop (r_secs d) (fresh_local (trs s2))) as [l e]. cbn [fst].
+    split.
+    - cbn [trs set_trs fst] in *. apply Hl.
+      + rewrite strip_fresh. exact Hnd.
+      + intros t Hin. unfold fresh_local in Hin. apply in_map_iff in Hin. destruct Hin as (? & [=] & _).
+    - split; intros d0 Hd; cbn in Hd; [apply Hc; exact Hd|]. injection Hd as <-. exact Hrd. }
+  destruct ty; try exact Hloop.
+  set (s1 := set_sig_remote s g (Some d) None).
+  set (s2 := set_engine s1 (engine_update (r_secs d) (neg_audio s1) (neg_video s1))).
+  set (s3 := set_trs s2 _).
+  pose proof (finish_senders_mids s3) as Hm. pose proof (finish_senders_remote s3) as [Hr1 Hr2].
+  apply (inv_same_mids s); auto.
+  - rewrite Hm. unfold s3. cbn [trs set_trs]. apply set_cur_dirs_mids.
+  - intros d0 Hd. rewrite Hr1 in Hd. cbn in Hd. injection Hd as <-. exact Hrd.
+  - intros d0 Hd. rewrite Hr2 in Hd. discriminate.
+Qed.
+
 Lemma step_inv s o :
   inv s ->
   (forall ty d, o = SetRemote ty d -> rdesc_ok d) ->
-  (o = CreateOffer -> numbering_ok s) ->
+  (o = CreateOffer -> offer_nowrap s = true) ->
   inv (fst (step s o)).
 Proof.
-  intros [Hnd [Hc Hp]] Hrd Hnum. destruct o; cbn [step].
+  intros Hinv Hrd Hnum. pose proof Hinv as [Hnd [Hc Hp]]. destruct o; cbn [step].
   - (* AddTransceiver *)
     unfold add_transceiver. destruct d.
-    + destruct (has_codecs s k); cbn [fst]; [|split; [exact Hnd|split; assumption]].
+    + destruct (has_codecs s k); cbn [fst]; [|exact Hinv].
       split; [|split; assumption]. cbn [trs set_trs]. rewrite set_mids_app. cbn. rewrite app_nil_r. exact Hnd.
-    + destruct (has_codecs s k); cbn [fst]; [|split; [exact Hnd|split; assumption]].
+    + destruct (has_codecs s k); cbn [fst]; [|exact Hinv].
       split; [|split; assumption]. cbn [trs set_trs]. rewrite set_mids_app. cbn. rewrite app_nil_r. exact Hnd.
     + cbn [fst]. split; [|split; assumption]. cbn [trs set_trs]. rewrite set_mids_app. cbn. rewrite app_nil_r. exact Hnd.
-    + cbn [fst]. split; [exact Hnd|split; assumption].
+    + exact Hinv.
+  - (* AddTrack *)
+    unfold add_track. destruct (reuse_for_track k (trs s)) as [l|] eqn:E; cbn [fst].
+    + apply (inv_same_mids s); auto. cbn [trs set_trs]. eapply reuse_for_track_mids. exact E.
+    + split; [|split; assumption]. cbn [trs set_trs]. rewrite set_mids_app. cbn. rewrite app_nil_r. exact Hnd.
+  - (* RemoveTrack *)
+    unfold remove_track. destruct (nth_error (trs s) i) as [t|]; [|exact Hinv].
+    destruct (t_sender t); [|exact Hinv]. cbn [fst].
+    apply (inv_same_mids s); auto. cbn [trs set_trs].
+    destruct (upd_nth i detach_track (trs s)) as [l|] eqn:E; [|reflexivity].
+    eapply upd_nth_mids; [|exact E]. apply detach_track_mid.
   - (* StopTransceiver *)
-    unfold stop_transceiver. destruct (upd_nth i stop_tr (trs s)) as [l|] eqn:E; cbn [fst].
-    + split; [|split; assumption]. cbn [trs set_trs].
-      rewrite (set_mids_ext l (trs s)); [exact Hnd|]. eapply upd_nth_mids; [|exact E]. intro; reflexivity.
-    + split; [exact Hnd|split; assumption].
+    unfold stop_transceiver. destruct (upd_nth i stop_tr (trs s)) as [l|] eqn:E; cbn [fst]; [|exact Hinv].
+    apply (inv_same_mids s); auto. cbn [trs set_trs]. eapply upd_nth_mids; [|exact E]. intro; reflexivity.
   - (* CreateDataChannel *)
-    cbn. split; [exact Hnd|split; assumption].
+    cbn. exact Hinv.
   - (* CreateOffer *)
     destruct (create_offer s) as [s' r] eqn:E. cbn [fst].
     pose proof (create_offer_mids s) as Hm. pose proof (create_offer_remote s) as [Hr1 Hr2].
     rewrite E in Hm, Hr1, Hr2. cbn [fst] in *.
     split.
-    + rewrite (set_mids_ext _ _ Hm). exact (Hnum eq_refl).
+    + rewrite (set_mids_ext _ _ Hm). apply numbering_ok_lemma; [exact Hnd|exact (Hnum eq_refl)].
     + split; intros d Hd; [apply Hc|apply Hp]; congruence.
   - (* CreateAnswer *)
     destruct (create_answer s) as [s' r] eqn:E. cbn [fst].
     pose proof (create_answer_mids s) as Hm. pose proof (create_answer_remote s) as [Hr1 Hr2].
     rewrite E in Hm, Hr1, Hr2. cbn [fst] in *.
-    split.
-    + rewrite (set_mids_ext _ _ Hm). exact Hnd.
-    + split; intros d Hd; [apply Hc|apply Hp]; congruence.
+    apply (inv_same_mids s); auto; intros d Hd; [apply Hc|apply Hp]; congruence.
   - (* SetLocal *)
-    destruct (set_local s ty) as [s' r] eqn:E. cbn [fst]. unfold set_local in E.
-    destruct ty.
-    + destruct (sig s); injection E as <- _; (split; [exact Hnd|split; assumption]).
-    + destruct (sig s); try (injection E as <- _; split; [exact Hnd|split; assumption]).
-      set (s1 := set_sig_remote s Stable (pend_remote s) None) in *.
-      pose proof (finish_senders_mids s1) as Hm. pose proof (finish_senders_remote s1) as [Hr1 Hr2].
-      rewrite E in Hm, Hr1, Hr2. cbn [fst] in *.
-      split.
-      * rewrite (set_mids_ext _ _ Hm). exact Hnd.
-      * split; intros d Hd.
-        -- rewrite Hr1 in Hd. cbn in Hd. apply Hp. exact Hd.
-        -- rewrite Hr2 in Hd. discriminate.
+    destruct (set_local s ty) as [s' r] eqn:E. cbn [fst].
+    replace s' with (fst (set_local s ty)) by (rewrite E; reflexivity). apply set_local_inv. exact Hinv.
   - (* SetRemote *)
-    specialize (Hrd ty d eq_refl).
-    destruct (set_remote s ty d) as [s' r] eqn:E. cbn [fst]. unfold set_remote in E.
-    destruct ty.
-    + destruct (sig s); try (injection E as <- _; split; [exact Hnd|split; assumption]).
-      set (s1 := set_sig_remote s HaveRemoteOffer (cur_remote s) (Some d)) in *.
-      set (s2 := set_engine s1 (engine_update (r_secs d) (neg_audio s1) (neg_video s1))) in *.
-      pose proof (srd_loop_nodup (r_secs d) (fresh_local (trs s2)) Hrd) as Hl.
-      destruct (srd_loop (r_secs d) (fresh_local (trs s2))) as [l e]. injection E as <- _.
-      split.
-      * cbn [trs set_trs fst] in *. apply Hl.
-        -- rewrite strip_fresh. exact Hnd.
-        -- intros t Hin. unfold fresh_local in Hin. apply in_map_iff in Hin. destruct Hin as (? & [=] & _).
-      * split; intros d0 Hd; cbn in Hd; [apply Hc; exact Hd|]. injection Hd as <-. exact Hrd.
-    + destruct (sig s); try (injection E as <- _; split; [exact Hnd|split; assumption]).
-      set (s1 := set_sig_remote s Stable (Some d) None) in *.
-      set (s2 := set_engine s1 (engine_update (r_secs d) (neg_audio s1) (neg_video s1))) in *.
-      pose proof (finish_senders_mids s2) as Hm. pose proof (finish_senders_remote s2) as [Hr1 Hr2].
-      rewrite E in Hm, Hr1, Hr2. cbn [fst] in *.
-      split.
-      * rewrite (set_mids_ext _ _ Hm). exact Hnd.
-      * split; intros d0 Hd.
-        -- rewrite Hr1 in Hd. cbn in Hd. injection Hd as <-. exact Hrd.
-        -- rewrite Hr2 in Hd. discriminate.
+    destruct (set_remote s ty d) as [s' r] eqn:E. cbn [fst].
+    replace s' with (fst (set_remote s ty d)) by (rewrite E; reflexivity).
+    apply set_remote_inv; [exact Hinv|]. exact (Hrd ty d eq_refl).
 Qed.
 
 (* along the trace of a history *)
 Lemma trace_from_inv ops : forall s0,
   inv s0 ->
   (forall ty d, In (SetRemote ty d) ops -> rdesc_ok d) ->
-  (forall s out s', In (s, CreateOffer, out, s') (trace_from s0 ops) -> numbering_ok s) ->
+  (forall s out s', In (s, CreateOffer, out, s') (trace_from s0 ops) -> offer_nowrap s = true) ->
   forall s o out s', In (s, o, out, s') (trace_from s0 ops) -> inv s /\ inv s'.
 Proof.
   induction ops as [|o rest IH]; intros s0 H0 Hrd Hnum s o' out s' Hin; [destruct Hin|].
